@@ -12,7 +12,8 @@ No logic here: parsing + calls of `readNL`, `delivered`, `solObjnoLine`, `objRow
   (arguments in the order of the generated signature) and prints `ret n` / `throw` / `ub`.
 
   `T <cnt> {<var> <coef>}*` prints `sortTerms` (model of `LinTerms::sort_terms`) of the term list as `v:c,v:c,..`;
-  `U …` the same through the *generated* `LinTerms_sort_terms` (force_sort = 0). -/
+  `U …` the same through the *generated* `LinTerms_sort_terms` (force_sort = 0);
+  `Q {<coef> <var1> <var2>}*` prints the generated `QuadTerms_sort_terms` and the model's `sortQuadTerms` as `a*b:c,… | a*b:c,…`. -/
 open MpVerif.C12
 
 def parseOps : Nat → List String → Option (List OptOp × List String)
@@ -74,6 +75,17 @@ def runGen (name : String) (args : List String) : Option String := do
 def runLine (toks : List String) : Option String := do
   match toks with
   | "F" :: name :: args => runGen name args
+  | "Q" :: rest => do
+    let xs ← rest.mapM (·.toInt?)
+    if xs.length % 3 ≠ 0 then none
+    let rec triples : List Int → List (Int × Int × Int)
+      | c :: a :: b :: r => (c, a, b) :: triples r
+      | _ => []
+    let l := triples xs
+    let (cs, v1, v2) := MpVerif.Gen.ObjFilter.QuadTerms_sort_terms (l.map (·.1)) (l.map (·.2.1)) (l.map (·.2.2))
+    let m := sortQuadTerms l
+    pure (",".intercalate ((cs.zip (v1.zip v2)).map fun (c, a, b) => toString a ++ "*" ++ toString b ++ ":" ++ toString c) ++ " | " ++
+          ",".intercalate (m.map fun (c, a, b) => toString a ++ "*" ++ toString b ++ ":" ++ toString c))
   | "U" :: cnt :: rest => do
     let c ← cnt.toNat?
     let (ts, r) ← parseTerms c rest
